@@ -59,6 +59,13 @@ CHECKS['C05'] = ('exploration',
          'Rotations are built and rebuilt by the harness from the documented axis orders.',
          'Bounded to the enumerated letters. The line monitor shows all four argmax arms and both singular arms of every tr2rpy order are reached.',
          'DESIGN.md 3/C05')
+CHECKS['C06'] = ('exploration',
+         'exhaustive product pose x point x argument form x route against R p + t',
+         'Every generator pose of SO2/SE2/SO3/SE3 x every point of the magnitude alphabet (1e-6..1e6, mixed) x every argument form '
+         '(list, tuple, 1-D, row, column, d x N for N = 1..7) x every route (pose object, unit quaternion, unit dual quaternion, '
+         'homtrans, h2e/e2h, qvmul); poses holding 1..5 distinct values x one point; (XY)p = X(Yp) and X^-1(Xp) = p on all generator pairs.',
+         'Bounded to the enumerated poses and points. Reference R p + t in float64 (data spans <= 1e12).',
+         'DESIGN.md 3/C06')
 PENDING = {}
 
 def main():
